@@ -457,6 +457,17 @@ static bool step()
 		q->forEach(makeKey(e), [&n, e](const Handle & h, const Q::Callback &) { ++n; evx("vi", e, numberOf(h), n, 0, 0); });
 		evx("fl", e, n, 0, 1, 0);
 	}
+	else if(k == "fu") {
+		const int e = o.a;
+		evx("fub", e, 0, 0, 0, 0);
+		q->forEach(makeKey(e), [e](const Handle & h, const Q::Callback &) {
+			const int hn = numberOf(h);
+			evx("vu", e, hn, 0, 0, 0);
+			try { runUser(hn); } catch(const Thrown &) { }
+			evx("vr", e, hn, 0, 0, 0);
+		});
+		evx("fue", e, 0, 0, 0, 0);
+	}
 #if W_FILTER == 1
 	else if(k == "af") { int id = (int)FH.size() + 1; FH.push_back(q->appendFilter(Fl(id))); evx("af", 0, 0, 0, id, 0); }
 	else if(k == "rf") { bool r = (o.a >= 1 && o.a <= (int)FH.size()) ? q->removeFilter(FH[o.a - 1]) : false; evx("rf", 0, o.a, 0, r ? 1 : 0, 0); }
